@@ -14,10 +14,14 @@ import (
 	"sync"
 
 	"github.com/ipni/go-libipni/apierror"
+	"github.com/ipni/go-libipni/dhash"
+	findclient "github.com/ipni/go-libipni/find/client"
 	"github.com/ipni/go-libipni/find/model"
 	"github.com/ipni/go-libipni/pcache"
 	"github.com/libp2p/go-libp2p/core/peer"
 	"github.com/multiformats/go-multiaddr"
+
+	"github.com/multiformats/go-multihash"
 
 	"verifharness/internal/ids"
 	"verifharness/internal/rep"
@@ -268,6 +272,74 @@ func plainNeighbour(src pcache.ProviderSource, q string, lookup []byte) (why str
 	return ""
 }
 
+// oneRecordStore is a dhstore holding one multihash indexed for one (provider, context ID) with one metadata.
+type oneRecordStore struct {
+	key string
+	evk []byte
+	hvk string
+	emd []byte
+}
+
+func (o *oneRecordStore) FindMultihash(_ context.Context, mh multihash.Multihash) ([]model.EncryptedMultihashResult, error) {
+	if string(mh) != o.key {
+		return nil, nil
+	}
+	return []model.EncryptedMultihashResult{{Multihash: mh, EncryptedValueKeys: [][]byte{o.evk}}}, nil
+}
+
+func (o *oneRecordStore) FindMetadata(_ context.Context, hvk []byte) ([]byte, error) {
+	if string(hvk) != o.hvk {
+		return nil, nil
+	}
+	return o.emd, nil
+}
+
+// queryThroughFind: the reader-privacy find client (which expands what it finds through its own provider cache) looks up a
+// multihash indexed for provider m under the queried context with the looked-up metadata; it must return the model's expansion.
+func queryThroughFind(providersURL string, q string, lookup []byte) (ob observed) {
+	defer func() {
+		if e := recover(); e != nil {
+			ob.Panic = fmt.Sprint(e)
+		}
+	}()
+	mh, _ := multihash.Sum([]byte("c17-find"), multihash.SHA2_256, -1)
+	vk := dhash.CreateValueKey(ids.Peer("m"), []byte(q))
+	evk, err := dhash.EncryptValueKey(vk, mh)
+	if err != nil {
+		ob.Err = err.Error()
+		return
+	}
+	emd, err := dhash.EncryptMetadata(lookup, vk)
+	if err != nil {
+		ob.Err = err.Error()
+		return
+	}
+	st := &oneRecordStore{key: string(dhash.SecondMultihash(mh)), evk: evk, hvk: string(dhash.SHA256(vk, nil)), emd: emd}
+	cl, err := findclient.NewDHashClient(findclient.WithDHStoreAPI(st), findclient.WithProvidersURL(providersURL), findclient.WithPcachePreload(true))
+	if err != nil {
+		ob.Err = "new client: " + err.Error()
+		return
+	}
+	fr, err := cl.Find(context.Background(), mh)
+	if err != nil {
+		ob.Err = err.Error()
+		return
+	}
+	for _, mr := range fr.MultihashResults {
+		for _, r := range mr.ProviderResults {
+			if r.Provider == nil {
+				ob.Bad = "nil provider in result"
+				continue
+			}
+			if string(r.ContextID) != q {
+				ob.Bad = "context id changed"
+			}
+			ob.Res = append(ob.Res, entry{ID: nameOf(r.Provider.ID), MD: classOf(r.Metadata, lookup)})
+		}
+	}
+	return
+}
+
 func expectClass(c string) string {
 	if c == "nil" || c == "empty" {
 		return "none"
@@ -316,9 +388,14 @@ func judge(tc *tcase, ob observed) (string, bool) {
 
 // httpSourceFor serves the record as the JSON a remote indexer would send.
 func httpSourceFor(pi *model.ProviderInfo) (pcache.ProviderSource, func(), error) {
+	src, closeFn, _, err := httpSourceURLFor(pi)
+	return src, closeFn, err
+}
+
+func httpSourceURLFor(pi *model.ProviderInfo) (pcache.ProviderSource, func(), string, error) {
 	one, err := json.Marshal(pi)
 	if err != nil {
-		return nil, nil, err
+		return nil, nil, "", err
 	}
 	// the listing holds other providers too: one with extended providers of its own before the case's record, a plain one after
 	// it -- each record is its own, nothing of a neighbour's may show in it
@@ -328,7 +405,7 @@ func httpSourceFor(pi *model.ProviderInfo) (pcache.ProviderSource, func(), error
 	after := &model.ProviderInfo{AddrInfo: peer.AddrInfo{ID: ids.Peer("c17-after"), Addrs: addrInfo("y").Addrs}, LastAdvertisementTime: "2024-01-01T00:00:00Z"}
 	all, err := json.Marshal([]*model.ProviderInfo{before, pi, after})
 	if err != nil {
-		return nil, nil, err
+		return nil, nil, "", err
 	}
 	srv := httptest.NewServer(http.HandlerFunc(func(w http.ResponseWriter, r *http.Request) {
 		w.Header().Set("Content-Type", "application/json")
@@ -345,9 +422,9 @@ func httpSourceFor(pi *model.ProviderInfo) (pcache.ProviderSource, func(), error
 	src, err := pcache.NewHTTPSource(srv.URL, srv.Client())
 	if err != nil {
 		srv.Close()
-		return nil, nil, err
+		return nil, nil, "", err
 	}
-	return src, srv.Close, nil
+	return src, srv.Close, srv.URL, nil
 }
 
 func Run(args []string) *rep.Report {
@@ -417,8 +494,15 @@ func Run(args []string) *rep.Report {
 				}
 				if *httpEvery > 0 && j.idx%*httpEvery == 0 {
 					pi := build(tc.Rec, true)
-					src, closeFn, err := httpSourceFor(pi)
+					src, closeFn, purl, err := httpSourceURLFor(pi)
 					if err == nil {
+						if len(lookup) > 0 && tc.Out.Kind == "exact" {
+							fo := queryThroughFind(purl, tc.Q, lookup)
+							n++
+							if key, ok := judge(tc, fo); !ok {
+								r.Diverge(rep.Divergence{Key: key, Case: tc, Expected: tc.Out, Observed: fo, Detail: "variant find-client: the reader-privacy client's Find, which expands through its own provider cache"})
+							}
+						}
 						ob := query(src, true, tc.Q, lookup)
 						if ob.Err == "" && ob.Panic == "" {
 							if why := plainNeighbour(src, tc.Q, lookup); why != "" {
